@@ -309,6 +309,14 @@ func (ex *Exec) arith(pos token.Pos, r Term, t types.Type) {
 		}
 		return false
 	})
+	if ex.fr.contract != nil {
+		for _, f := range ex.fr.contract.Fits {
+			if f == txt {
+				ex.vc.Assume(ex.st.pc, inRange(r, t), "pragma fits")
+				return
+			}
+		}
+	}
 	ex.vc.Oblige("arith", txt, ex.st.pc, inRange(r, t), ex.posString(pos))
 	ex.vc.Assume(ex.st.pc, inRange(r, t), "")
 }
